@@ -64,7 +64,7 @@ EmailWhy(ev) ==
   Fails("flag", (p.exp \in {0, 1} /\ p.eflag # -1 => fl = p.eflag) /\ (rc = 0 /\ split /\ D[1] # LBR => fl = 4)) \cup
   Fails("truth", rc < 0 =>
         CASE code = E_EMAIL_EMPTY -> n = 0
-          [] code = E_DOMAIN_EMPTY -> ~split \/ Len(D) = 0
+          [] code = E_DOMAIN_EMPTY -> ~split \/ Len(D) = 0 \/ Len(Dx) = 0        \* (6531: the converted name may be empty)
           [] code = E_LPART_TOO_LONG -> at - 1 > 64
           [] code \in 4..15 -> split /\ LTruthFull(o, m, code, L)
           [] code \in 17..22 -> split /\ D[1] # LBR /\ HTruthFull(o, code, Dx)
